@@ -115,11 +115,38 @@ func newLibSM(k *fw.K, s symref.Suite, kenc, kmac, ssc []byte) *iso7816.SecureMe
 	if err != nil {
 		fw.LibFail("new-secure-messaging-failed", "NewSecureMessaging(%v) with valid keys: %v", s, err)
 	}
-	if err := sm.SetSSC(ssc); err != nil {
+	// The counter is handed over in a scratch buffer of the caller's, as a terminal that
+	// derives it on the fly does; in three of four cases the caller wipes or re-uses that
+	// buffer straight afterwards (a pure function of the case index). The counter of the
+	// session is the value at the time of the call.
+	buf := append([]byte{}, ssc...)
+	if err := sm.SetSSC(buf); err != nil {
 		fw.LibFail("set-ssc-failed", "SetSSC with a counter of the right length: %v", err)
 	}
+	scribble(buf, int(k.Idx%4))
 	return sm
 }
+
+// scribble is what a caller does to a buffer it owns once the callee has returned:
+// 0 nothing, 1 wipe, 2 fill with other bytes, 3 count it up (re-use for the next value).
+func scribble(b []byte, how int) {
+	switch how % 4 {
+	case 1:
+		for i := range b {
+			b[i] = 0
+		}
+	case 2:
+		for i := range b {
+			b[i] = b[i]*31 + 0xA7 + byte(i)
+		}
+	case 3:
+		chipsim.IncSSC(b)
+		chipsim.IncSSC(b)
+		chipsim.IncSSC(b)
+	}
+}
+
+var scribbleNames = []string{"kept", "wiped", "refilled", "counted-up"}
 
 // plainCmd is a generated unprotected command.
 type plainCmd struct {
@@ -185,7 +212,58 @@ func genPlainCmd(r *mrand.Rand, allowBig bool) plainCmd {
 	return p
 }
 
-var smSWs = []uint16{0x9000, 0x9000, 0x9000, 0x6A82, 0x6282, 0x6300, 0x6982, 0x6700, 0x6A86, 0x6CFF, 0x6283}
+// smLibStatusWords: every status word the library's iso7816 package names (rapdu.go).
+var smLibStatusWords = []uint16{0x9000, 0x6283, 0x6982, 0x6A81, 0x6A82, 0x6A86, 0x6A87}
+
+// smISOStatusWords: the status words ISO/IEC 7816-4:2013 table 6 and ICAO 9303-10/-11 give
+// a meaning to (SW2 ranges by their first, last and a middle value), i.e. what a chip's
+// operating system can put into DO'99'.
+var smISOStatusWords = []uint16{
+	0x9000,
+	0x6100, 0x6101, 0x6110, 0x61FF,
+	0x6200, 0x6202, 0x6280, 0x6281, 0x6282, 0x6283, 0x6284, 0x6285, 0x6286, 0x6287, 0x62F1,
+	0x6300, 0x6381, 0x63C0, 0x63C1, 0x63C2, 0x63C3, 0x63CF, 0x63F1,
+	0x6400, 0x6401, 0x6402, 0x6480,
+	0x6500, 0x6581,
+	0x6600, 0x6601,
+	0x6700,
+	0x6800, 0x6881, 0x6882, 0x6883, 0x6884,
+	0x6900, 0x6981, 0x6982, 0x6983, 0x6984, 0x6985, 0x6986, 0x6987, 0x6988,
+	0x6A00, 0x6A80, 0x6A81, 0x6A82, 0x6A83, 0x6A84, 0x6A85, 0x6A86, 0x6A87, 0x6A88, 0x6A89, 0x6A8A,
+	0x6B00,
+	0x6C00, 0x6C01, 0x6C08, 0x6C28, 0x6CFF,
+	0x6D00, 0x6E00, 0x6F00, 0x6F01, 0x6FFF,
+	0x9001, 0x9100, 0x9FFF,
+}
+
+// drawSW draws the status word of a genuine protected response: 9000, a status the library
+// names, a status the standards name, a uniformly random interindustry status (SW1 61..6F)
+// or a uniformly random 16-bit value.
+func drawSW(r *mrand.Rand) uint16 {
+	switch r.IntN(10) {
+	case 0, 1, 2:
+		return 0x9000
+	case 3, 4:
+		return smLibStatusWords[r.IntN(len(smLibStatusWords))]
+	case 5, 6:
+		return smISOStatusWords[r.IntN(len(smISOStatusWords))]
+	case 7:
+		return uint16(0x6100 + r.IntN(0x0F00))
+	}
+	return uint16(r.Uint32())
+}
+
+// swName is the part of a violation key that names a status word: the exact value for the
+// named ones, the SW1 class for the rest (so that a slip that hits a whole range does not
+// produce thousands of keys).
+func swName(sw uint16) string {
+	for _, s := range smISOStatusWords {
+		if s == sw {
+			return fmt.Sprintf("sw-%04x", sw)
+		}
+	}
+	return fmt.Sprintf("sw1-%02x", sw>>8)
+}
 
 func genRespData(r *mrand.Rand, allowBig bool) []byte {
 	var n int
